@@ -5,7 +5,7 @@ import re
 
 LEVEL = 'proof'
 TRUSTED_BASE = ['CBMC 6.11 + cadical (+ z3 for the quantified bytewise-copy postcondition)', 'tools/extract.py rewrite rules',
-                'nextPow2 contract (proved under C44)', 'allocSmallBuffer<N>: block of N bytes aligned to N (C41)']
+                'nextPow2 contract (proved under C44)', 'allocSmallBuffer<N>: block of N bytes aligned to N: size classes and the large-block path are re-verified here (C41 units); the pooled allocator behind them is C41']
 ASSUMPTIONS = ['the functor type is abstract: symbolic sizeof/alignof (alignment a power of two <= 256 dividing the size); functor body = ghost invocation event',
                'non-DISPENSO_DEBUG build (the #if defined DISPENSO_DEBUG branches are dropped)',
                'double invocation / use after move are documented misuse and not specified',
@@ -61,4 +61,11 @@ def build(ctx):
         Unit('OnceFunction::operator()', 'cbmc', S, 'OnceFunction_call', defines=d, expect=[r'postcondition']),
         Unit('OnceFunction::cleanupNotRun', 'cbmc', S, 'OnceFunction_cleanupNotRun', defines=d, expect=[r'postcondition']),
     ]
+    # the spill path relies on allocSmallBuffer<N> handing out a block aligned to N: the size-class / large-block units of C41 are part of
+    # this check too (same spec file as C41), so a change that weakens that alignment is reported under C39 as well
+    import importlib.util, os
+    sp = importlib.util.spec_from_file_location('c41mod', os.path.join(os.path.dirname(__file__), 'c41.py'))
+    c41 = importlib.util.module_from_spec(sp)
+    sp.loader.exec_module(c41)
+    units += [u for u in c41.build(ctx) if u.name in ('getOrdinal', 'allocSmallOrLarge(N>256)', 'size_class(N)')]
     return units
